@@ -20,6 +20,14 @@ Decided:
          itertools.count() that is never rebound or re-created;
   R12.d  built-in middlewares: per-request writes to ``self`` are inventoried (StatsMiddleware counters, by
          design); a new per-request self-write in any other middleware fires.
+  R12.e  the rest of the tree that runs while a request is served (built-in middlewares, renderers, the applications
+         clastic ships) updates no positively long-lived object (c12_ring.py): a long-lived instance (also through a local
+         naming one of its fields), a class object (``cls.x`` / ``type(self).x`` / ``self.__class__.x`` / ``Class.x``), a
+         class-level mutable attribute reached through an instance, a module-level object, the default object of a
+         parameter; a default expression is not a call evaluated once at definition.  The same kinds are shared in the
+         core's classification (R12.a): a parameter's default object whatever the parameter is called, ``cls`` and
+         ``__class__`` whatever the class, a local that only names a module-level object, a field of a per-request class
+         that is initialised in the class body only.
 Declined: interleavings inside werkzeug / user code; anything below the Python level.
 """
 import ast
@@ -58,7 +66,8 @@ def run(rep):
     repo = rep.repo
     app, route = repo.mod(APP), repo.mod(ROUTE)
     rep.decide('R12.a no shared write on the request path (incl. generated code); R12.b BoundRoute immutable after '
-               'construction; R12.c request-id source; R12.d middleware self-write inventory')
+               'construction; R12.c request-id source; R12.d middleware self-write inventory; R12.e no long-lived receiver '
+               'is updated by the middlewares / renderers / shipped applications')
     rep.decline('interleavings inside werkzeug / user code; memory-model questions below the Python level')
     rep.assume('itertools.count.__next__ is a single C call under the GIL')
     rep.assume('user-supplied endpoints / middlewares / renderers and werkzeug do not share state between requests')
@@ -76,6 +85,11 @@ def run(rep):
     _group(rep, check_request_ids, rep, rp, app)
 
     _group(rep, check_middleware_self_writes, rep)
+    rep.rule('R12.e', 'outside the core (built-in middlewares, renderers, shipped applications): no update of a positively long-lived receiver '
+                      '(long-lived instance, class object, class-level attribute, module-level object, default object); defaults are not '
+                      'evaluated-once calls')
+    from .c12_ring import check_ring
+    _group(rep, check_ring, rep, 'R12.e', rp)
 
 
 # ---- R12.c: request ids ---------------------------------------------------------------------------------------------
@@ -314,9 +328,43 @@ def check_generated_code(rep):
     for label in ('chain level', 'request core'):
         # (a builder the template evaluator cannot follow is an analysis gap: the text is never obtained by running
         # the builder, concretely or otherwise -- that would leave the family of technique this checker belongs to)
-        text, env, mod_, node = via_template(label)
+        try:
+            text, env, mod_, node = via_template(label)
+        except AnalysisError as first:
+            if label != 'chain level':
+                raise
+            # a builder that accumulates the text over a loop with carried state: the *set of line templates* it can emit is
+            # still computed by abstract evaluation (c12_gen.py) -- enough for what this rule asks of the generated text
+            try:
+                _judge_line_bag(rep, label, compile_code)
+            except AnalysisError as second:
+                raise AnalysisError('%s; as a set of line templates: %s' % (first, second))
+            continue
         how = 'template rendered with placeholder names'
         _judge_generated(rep, label, text, env, mod_, node, how)
+
+
+def _judge_line_bag(rep, label, compile_code):
+    from . import c12_gen
+    repo = rep.repo
+    sinter = repo.mod('clastic.sinter')
+    fi = sinter.func('build_chain_str')
+    lines, node = c12_gen.line_bag(repo, fi, 'level' if 'level' in fi.params() else None)
+    bad, closed = c12_gen.judge_lines(lines, label)
+    env = None
+    for f2 in sinter.functions.values():
+        calls = [c for c in walk_body(f2.node) if isinstance(c, ast.Call)]
+        if any(call_name(c) == fi.name for c in calls) and f2 is not fi:
+            for c in calls:
+                if call_name(c) == 'compile_code':
+                    env = _env_keys(f2, c, compile_code)
+    how = 'the set of line templates of the accumulating builder, %d lines, order and number abstracted' % len(lines)
+    rep.check('R12.a', 'generated::%s' % label, not bad,
+              'generated %s stores only into locals; per-request values live in call frames (%s)' % (label, how) if not bad else
+              'generated %s contains a heap store / global: %s' % (label, bad), sinter, node)
+    want = env if env is not None else ['funcs']
+    rep.check('R12.a', 'generated::%s closure' % label, closed == want, 'closes over %s only' % want if closed == want else
+              'generated %s reads free names %s (expected %s)' % (label, closed, want), sinter, node)
 
 
 def _construction_only_methods(repo, ci):
